@@ -341,6 +341,7 @@ type LoopSpec struct {
 	Key        string
 	Ord        int // 0 = any
 	Invariants []*Clause
+	IterEnsures []*Clause // asserted at the end of every iteration (transition relation of the body)
 	Decreases  *Clause
 	HavocAll   bool
 }
@@ -645,6 +646,8 @@ func ReadContractFile(path, pkgPath string) ([]*Contract, error) {
 				}
 			case "nopanic":
 				tgt.NoPanic = true
+			case "nonblocking":
+				tgt.Notes = append(tgt.Notes, "nonblocking")
 			case "assume-contract":
 				tgt.Trusted = true
 			case "opaque":
@@ -686,7 +689,7 @@ func ReadContractFile(path, pkgPath string) ([]*Contract, error) {
 						return nil, err
 					}
 				}
-			case "invariant", "decreases", "havoc-all":
+			case "invariant", "decreases", "havoc-all", "iter-ensures":
 				if curLoop == nil {
 					return nil, fmt.Errorf("%s:%d: %s outside loop", path, l.n, word)
 				}
@@ -743,6 +746,12 @@ func addLoopClause(ls *LoopSpec, s string, mk func(string, string, int) (*Clause
 			return err
 		}
 		ls.Invariants = append(ls.Invariants, cl)
+	case "iter-ensures":
+		cl, err := mk("iter-ensures", rest, line)
+		if err != nil {
+			return err
+		}
+		ls.IterEnsures = append(ls.IterEnsures, cl)
 	case "decreases":
 		cl, err := mk("decreases", rest, line)
 		if err != nil {
